@@ -779,6 +779,8 @@ def exec_cli(w, repo):
         rc, out, calls = go(["-exec", rec, "x{}y", "{}", ";"])
         want = ["<x%sy><%s>" % (p, p) for p in ("r", "r/a b", "r/d", "r/d/-n", "r/e'{}", "r/n\udce9")]
         res.append(("-exec ; argv %r" % [c.split("|", 1)[1] for c in calls], [c.split("|", 1)[1] for c in calls] == want and rc == 0))
+        rc, out, calls = go(["-name", "-n", "-execdir", rec, "x{}y", "{}", ";"])
+        res.append(("-execdir ; substitutes ./basename also inside a longer argument: %r" % calls, [c.split("|", 1)[1] for c in calls] == ["<x./-ny><./-n>"] and calls[0].split("|")[0].endswith("/r/d")))
         rc, out, calls = go(["-exec", rec, "{}", ";", "-print"], "3")
         res.append(("failing -exec ; is false and leaves the status alone: rc=%d out=%r" % (rc, out), rc == 0 and out == ""))
         rc, out, calls = go(["-exec", rec, "fixed", "{}", "+"])
